@@ -135,12 +135,19 @@ def _check_case(root, spec, pps, absolute, cfg, out, armed, alias):
             with util.chdir(root):
                 cres = G.glob(pats, flags=fl, **xk)
             # path-like roots that are not pathlib paths: an object that only has __fspath__ (str and bytes), and an os.DirEntry
-            plres = G.glob(pats, flags=fl, root_dir=_FsPath(root), **xk)
-            bplres = [os.fsdecode(x) for x in G.glob(os.fsencode(pats) if isinstance(pats, str) else [os.fsencode(p) for p in pats], flags=fl,
-                                                    root_dir=_FsPath(os.fsencode(root)), **bxk)]
+            def safe(fn):
+                try:
+                    return fn()
+                except util.HarnessBudget:
+                    raise
+                except Exception as e:          # an exception for one way of giving the root is a difference like any other
+                    return ['<%s>' % type(e).__name__]
+            plres = safe(lambda: G.glob(pats, flags=fl, root_dir=_FsPath(root), **xk))
+            bplres = safe(lambda: [os.fsdecode(x) for x in G.glob(os.fsencode(pats) if isinstance(pats, str) else [os.fsencode(p) for p in pats], flags=fl,
+                                                                  root_dir=_FsPath(os.fsencode(root)), **bxk)])
             with os.scandir(os.path.dirname(root)) as it_:
                 entry_ = next(e_ for e_ in it_ if e_.name == os.path.basename(root))
-            deres = G.glob(pats, flags=fl, root_dir=entry_, **xk)
+            deres = safe(lambda: G.glob(pats, flags=fl, root_dir=entry_, **xk))
             # a descriptor of the parent directory plus a relative root_dir: the root is <fd>/<root_dir>
             pfd = os.open(os.path.dirname(root), os.O_RDONLY)
             try:
